@@ -79,7 +79,7 @@ _VOCAB_Q = dict(F=["foo", "Foo", "_foo", "X_foo", "foo_", "foo_1", "get_foo", "s
                 O=["Foo", "get_foo", "bar"], N=["Foo"], E=[], kinds=["f", "m"], any=2, plain=3)
 _VOCAB_T = dict(F=["foo", "Foo", "_foo", "X_foo", "foo_", "foo_1", "foo_2", "get_foo", "GetFoo", "set_foo", "has_foo", "clear_foo",
                    "which_foo", "build", "reset", "descriptor", "proto_reflect", "proto_message"],
-                O=["foo", "Foo", "get_foo", "has_foo", "which_foo", "bar"], N=["Foo", "Foo_"], E=["GetFoo"], kinds=["f", "m", "r"], any=2, plain=3)
+                O=["foo", "Foo", "get_foo", "has_foo", "which_foo", "bar"], N=["Foo", "Foo_", "_foo"], E=["X_foo"], kinds=["f", "m", "r"], any=2, plain=3)
 
 
 def _msg_readable(ev):
@@ -268,7 +268,7 @@ def c40(res, tier, seed):
     else:
         bases = "{0, 2, 3, 4, 7, 9, 10, 13, 14, 20, 23, 27, 28, 29, 30, 31, 39, 41, 48, 58, 60, 62}"
         configs = [dict(Modes=["in", "fresh"], Perms="{0, 1, 2}", MaxPlan=2, Bases=bases),
-                   dict(Modes=["in"], Perms="{0, 1, 2}", MaxPlan=4, Bases=bases)]
+                   dict(Modes=["in"], Perms="{0, 1, 2}", MaxPlan=3, Bases=bases)]
     for c in configs:
         r = tlc("MC_GenHistory", cfg({"Modes": _S(c["Modes"]), "Perms": c["Perms"], "Digs": "{1, 2}", "MaxPlan": c["MaxPlan"],
                                       "Bases": c["Bases"], "Par0": seed % 32}, invariants=["Laws"], emit="Emit"),
@@ -279,7 +279,7 @@ def c40(res, tier, seed):
     res.exhaustive = True
     env = {"GOMAXPROCS": "2"}
     vlib.replay_tour(res, b, "gen", tour, key=_c40_key, timeout=3000, env=env)
-    n = 25 if q else 600
+    n = 25 if q else 250
     # C->S.  A nondeterministic generator never repeats an observation exactly, so "reproduced" means here: the same plan,
     # executed again, yields again a history that the specification rejects.
     gen = os.path.join(scratch(), "gen-gen-%d.ndjson" % seed)
@@ -313,7 +313,7 @@ def c40(res, tier, seed):
                 "reversed%s) on %d linked file sets with rotating parameter combinations (API level x import-path mode x annotate_code), "
                 "response and per-file digests compared; driver: random plans of 6-12 runs (1/6 in fresh processes) over all 69 linked "
                 "file sets and random schemas x 32 parameter combinations, histories validated by Trace_Gen; distinct = (file set, "
-                "parameters, plan shape, error classes)" % ("" if q else ", rotated; plus every in-process plan of <= 4 runs", 3 if q else 22))
+                "parameters, plan shape, error classes)" % ("" if q else ", rotated; plus every in-process plan of <= 3 runs", 3 if q else 22))
     res.assumptions += ["nondeterminism can only be OBSERVED (Go randomises map iteration per range statement and per process); "
                         "the specification cannot force an iteration order, hence level exploration",
                         "requests the plugin refuses before producing a response (no go_package, MessageSet without protolegacy) are "
